@@ -42,6 +42,7 @@ type Engine struct {
 	modSets       map[*ssa.Function]*ModSet
 	overlay       map[string][]byte
 	tier          string
+	inlineFuncs   []string
 }
 
 var defaultEffectFree = []string{
@@ -93,7 +94,20 @@ func (eng *Engine) inlinePkg(fn *ssa.Function) bool {
 	if fn.Pkg == nil {
 		return false
 	}
-	return eng.inlinePkgs[fn.Pkg.Pkg.Path()]
+	if eng.inlinePkgs[fn.Pkg.Pkg.Path()] {
+		return true
+	}
+	key := fn.String()
+	for _, p := range eng.inlineFuncs {
+		if strings.HasSuffix(p, "*") {
+			if strings.HasPrefix(key, p[:len(p)-1]) {
+				return true
+			}
+		} else if p == key {
+			return true
+		}
+	}
+	return false
 }
 
 func (eng *Engine) contractFor(fn *ssa.Function) *FuncContract {
@@ -212,6 +226,7 @@ func (eng *Engine) discoverContracts() error {
 		for _, p := range cf.InlinePkgs {
 			eng.inlinePkgs[p] = true
 		}
+		eng.inlineFuncs = append(eng.inlineFuncs, cf.InlineFuncs...)
 	}
 	return nil
 }
@@ -451,7 +466,7 @@ func (eng *Engine) newEnc(lp *LoadedPkg, fn *ssa.Function, fc *FuncContract, pas
 	e := &Enc{eng: eng, s: NewScript(), fn: fn, fc: fc, pkg: lp, pass: pass,
 		entry: newState(), universe: universe, keySorts: keySorts, rangeSeen: map[string]bool{}, cellStatic: map[string]Val{},
 		cells: map[*ssa.Alloc]int{}, escaped: escaped, loopMods: loopMods, oblNames: map[string]int{}, assumps: map[string]bool{},
-		siteHits: map[*Site]int{}, retVals: map[string][]TV{}, loopModsTmp: map[*ssa.BasicBlock]map[string]bool{},
+		siteHits: map[*Site]int{}, siteSeen: map[*Site]int{}, retVals: map[string][]TV{}, loopModsTmp: map[*ssa.BasicBlock]map[string]bool{},
 		floatConsts: map[string]float64{}, floatOpsUsed: map[string]bool{}, cellInst: map[*ssa.Alloc]int{},
 		assumpEffectFree: map[string]bool{}, closureSiteDone: map[*ssa.Function]bool{}, funcOperandDone: map[*ssa.Function]bool{}}
 	e.declFloat()
